@@ -259,6 +259,8 @@ impl Agent {
     }
 }
 
+static HELD: std::sync::Mutex<Option<(String, JaegerReporter)>> = std::sync::Mutex::new(None);
+
 fn run_case(agent: &Agent, service: &str, batch: Vec<SpanRecord>, out: &mut dyn Write) {
     let mut line = format!("J {} {}", hex_bytes(service.as_bytes()), batch.len());
     for r in &batch {
@@ -267,9 +269,16 @@ fn run_case(agent: &Agent, service: &str, batch: Vec<SpanRecord>, out: &mut dyn 
     }
     let addr = agent.sock.local_addr().unwrap();
     let svc = service.to_string();
+    // a reporter lives as long as the process: consecutive batches for the same service go
+    // through the same reporter object
     let res = guarded(move || {
-        let mut rep = JaegerReporter::new(addr, svc).expect("reporter");
+        let mut slot = HELD.lock().unwrap_or_else(|e| e.into_inner());
+        let mut rep = match slot.take() {
+            Some((s, rep)) if s == svc => rep,
+            _ => JaegerReporter::new(addr, svc.clone()).expect("reporter"),
+        };
         rep.report(batch);
+        *slot = Some((svc, rep));
     }, 20);
     if matches!(res, Outcome::Hung) {
         let _ = writeln!(out, "{} => hang", line);
@@ -293,10 +302,10 @@ pub fn generate(seed: u64, n: usize, out: &mut dyn Write) {
     let mut nrec = 0usize;
     let mut ndg = 0usize;
     for k in 0..n {
-        let service = match k % 5 {
+        let service = match (k / 3) % 5 {
             0 => String::new(),
             1 => "svc-é値".to_string(),
-            _ => format!("service-{}", k % 7),
+            _ => format!("service-{}", (k / 3) % 7),
         };
         let batch = gen_batch(&mut r, k + (seed as usize % 8));
         nrec += batch.len();
